@@ -85,13 +85,16 @@ def run(ctx):
     wspecs, wtrees = wc.specs(ctx, random.Random(ctx.seed * 7919 + 100), "C10")
     specs += wspecs
     tr, episodes, fails = sc.run_and_validate(specs)
+    # the repository's own suite: the scans it makes of its resource projects, validated by the same specification
+    str_, sepisodes, sfails, smeta = sc.validate_suite_scans()
+    fails = fails + sfails
     st = sc.stats(episodes)
     with_ext = sum(1 for ep in episodes for e in ep if e["k"] == "scan" and e["ext"] and e["out"] == "ok"
                    and any(m[0] != "r" for m in e["modules"]))
     dropped = sum(1 for ep in episodes for e in ep if e["k"] == "scan" and e["extexcl"]["kind"] != "none")
     if not st["law_instances"].get("internal") or not with_ext or not dropped:
         raise tlc.MachineryError(f"vacuous run: {st}")
-    cov = {"real_source_trees": wtrees, "states": mc.distinct + tr.states, "transitions": mc.generated + tr.transitions,
+    cov = {"real_source_trees": wtrees, "repository_suite_scans_validated": smeta.get("scans", 0), "repository_suite_scans_skipped": smeta.get("skipped", {}), "states": mc.distinct + tr.states, "transitions": mc.generated + tr.transitions,
            "model_states": mc.distinct, "model_transitions": mc.generated,
            "traces_validated_against_impl": len(episodes), "trace_events": tr.events,
            "scans_with_external_modules": with_ext, "scans_with_external_exclusions": dropped,
